@@ -281,15 +281,22 @@ P = {
   text="25 Lean theorems, generic over rectangle laws proved from C18 and instantiated at Int and Rat: after any history the ids "
        "reported by All equal the specification's multiset (abs_run, size_run), each of the 8 Find* queries (plain and matched) "
        "equals the filter of the stored nodes by the geom predicate, each boolean query is true iff its Find* is non-empty, "
-       "insert/remove node-level refinement, fuel_suffices_int / fuel_independent_int (results do not depend on the fuel once it exceeds "
+       "insert/remove node-level refinement, split_depth_rat / reorganize_depth_rat (depth logarithmic in root width over smallest "
+       "item width), fuel_suffices_int / fuel_independent_int (results do not depend on the fuel once it exceeds "
        "width+height of the root box; the driver additionally checks at run time that its fuel was never exhausted, since "
        "its histories contain boxes larger than its fuel). The model (outside list, "
        "auto-Reorganize, swap-remove, thresholds) is run against quadtree over int and float64 (exact dyadic inputs).",
   note="the same node inserted twice is two entries; nodes whose Bounds change while stored are outside the contract "
        "(hypothesis OpOK); integer coordinates are modelled as unbounded (machine overflow of X+Width is outside the "
        "theorems); float rounding is outside the exact-arithmetic theorems: the fractional-float clause is evidenced "
-       "by the floatscan oracle (non-dyadic floats vs a linear scan with the library's own predicates); 3 inputs with "
-       "rectangles whose positive size is absorbed by rounding are KNOWN FINDINGS.",
+       "by the floatscan oracle (non-dyadic floats vs a linear scan with the library's own predicates); the theorems transfer to "
+       "Go ints for histories where every stored and query rectangle has X+Width and Y+Height within int64 and the union of "
+       "the stored rectangles is narrower than 2^63 - outside that domain the evidence is the intwrap oracle (histories near "
+       "MaxInt/MinInt judged against a linear scan; predicates cross-checked against math/big); OpOK fixes one bounds function "
+       "per history (remove / change bounds / re-insert under the same id is excluded, also by the harness). KNOWN FINDINGS: 3 "
+       "inputs with float rectangles whose positive size is absorbed by rounding and 2 with int rectangles whose own X+Width "
+       "wraps (geom's Contains and Intersects become inconsistent there, so the Intersects-based pruning disagrees with the "
+       "scan).",
   ref="DESIGN.md section 5 C07"),
  "C08": dict(
   text="34 Lean theorems about the executable model of xmath.BitSet (words as BitVec 64, every loop transcribed): per-operation "
@@ -322,12 +329,21 @@ P = {
        "to the Model/Geom functions the theorems are about, for every such type (Contains, Intersects, Intersect, Union, "
        "Point.In, Expand, Inset, Matrix Multiply/Translate/Scale/TransformPoint, ...), plus 3 transported corollaries.",
   note="the SSA translator (gossa) is trusted to render the loop-free fragment faithfully; a function that a change moves out "
-       "of the fragment is reported as 'translator tie lost' (no-failing-input-found unless the differential run finds an "
-       "input); float rounding is outside the theorems (inputs are chosen so every float operation is exact, asserted with big.Rat); "
-       "Rotate/RotateByDegrees with libm sin/cos only through a 16-ulp implementation-side oracle; integer overflow of X+Width "
-       "not modelled; the floating-point clause is evidenced by the floatspec oracle (point-set specifications evaluated on "
-       "extreme representable points of non-dyadic rectangles); 4 inputs where Union/Intersect's recomputed far edge is one "
-       "ulp off are KNOWN FINDINGS by call site (other inputs of the class are counted, not alarmed).",
+       "of the fragment is reported as 'translator tie lost'. Float rounding is outside the theorems: the model-vs-code streams "
+       "use only inputs on which every float operation of the source is exact (small dyadic rationals; contour queries filtered "
+       "with big.Rat) and demand equality of the exact values. Under rounding (non-dyadic float64/float32 inputs of tiny, large "
+       "and mixed magnitudes) the implementation-side oracle floatspec judges exactly, without tolerance: Rect Contains/"
+       "Intersects/Intersect/Union and Point.In through their point-set specifications on the extreme representable points; "
+       "Contour.Bounds (every vertex In the bounds, strict) and Polygon.Bounds; Polygon.Transform (each result vertex "
+       "bit-identical to Matrix.TransformPoint of the original vertex, operand untouched, no shared storage); the identity "
+       "matrix; Contour.Contains/Polygon.Contains/ContainsEvenOdd away from edges against the exact crossing number (big.Rat; "
+       "points within 64 eps x magnitude of an edge are skipped and counted). Rotate/RotateByDegrees with libm sin/cos only "
+       "through the relative 16-ulp oracle. NOT evidenced under rounding: the composition laws of Multiply/Translate/Scale "
+       "(exact-arithmetic theorems plus exactly representable inputs only). Integer overflow of X+Width is not modelled. "
+       "'Without touching the original' is vacuous in the pure model and checked on the Go side only. KNOWN FINDINGS by call "
+       "site (specific inputs judged strictly on every run, other inputs of the class counted, not alarmed): Union/Intersect's "
+       "recomputed far edge one ulp off (4 inputs; Polygon.Bounds inherits it). Contour.Bounds' absorbed 1 was repaired in "
+       "/repo (c8f36a0).",
   ref="DESIGN.md section 5 C18"),
  "C20": dict(
   text="29 Lean theorems about the executable model of txt.NaturalCmp for all byte strings and both case modes: antisymmetry, "
